@@ -34,6 +34,8 @@ pub trait Hooks {
     fn before_acquire(&self, lock: LockId, mode: Mode);
     /// Called after the underlying std guard has been dropped.
     fn after_release(&self, lock: LockId, mode: Mode);
+    /// Called before a load (`store == false`) or store of a shared atomic; may block.
+    fn before_atomic(&self, _addr: usize, _store: bool) {}
 }
 
 thread_local! {
@@ -48,6 +50,12 @@ pub fn install(hooks: Option<&'static dyn Hooks>) {
 fn before(lock: LockId, mode: Mode) {
     if let Some(h) = HOOKS.with(|h| h.get()) {
         h.before_acquire(lock, mode);
+    }
+}
+
+fn atomic(addr: usize, store: bool) {
+    if let Ok(Some(h)) = HOOKS.try_with(|h| h.get()) {
+        h.before_atomic(addr, store);
     }
 }
 
@@ -83,6 +91,33 @@ impl crate::DB {
 }
 
 pub mod sync {
+    /// `std::sync::atomic` with `AtomicU64` reporting its loads and stores.
+    pub mod atomic {
+        pub use std::sync::atomic::*;
+
+        pub struct AtomicU64 {
+            inner: std::sync::atomic::AtomicU64,
+        }
+
+        impl AtomicU64 {
+            pub const fn new(v: u64) -> AtomicU64 {
+                AtomicU64 {
+                    inner: std::sync::atomic::AtomicU64::new(v),
+                }
+            }
+
+            pub fn load(&self, order: Ordering) -> u64 {
+                super::super::atomic(&self.inner as *const _ as usize, false);
+                self.inner.load(order)
+            }
+
+            pub fn store(&self, v: u64, order: Ordering) {
+                super::super::atomic(&self.inner as *const _ as usize, true);
+                self.inner.store(v, order)
+            }
+        }
+    }
+
     use std::{
         mem::ManuallyDrop,
         ops::{Deref, DerefMut},
@@ -261,7 +296,7 @@ pub mod fake_std {
         pub use ::std::sync::*;
 
         pub use crate::verif::sync::{
-            Mutex, MutexGuard, RwLock, RwLockReadGuard, RwLockWriteGuard,
+            atomic, Mutex, MutexGuard, RwLock, RwLockReadGuard, RwLockWriteGuard,
         };
     }
 }
